@@ -4,7 +4,7 @@
 # mean "the property's own clause fails on this input" for each property
 FAIL = {
     'C02': ('shape', 'symbol', 'sem', 'vars'),
-    'C01': ('sem', 'no-result', 'symbol'),
+    'C01': ('sem', 'no-result', 'symbol', 'rejected'),
     'C08': ('lex', 'grammar', 'accept'),
     'C09': ('vars', 'free', 'leak', 'symbol'),
     'C03': ('sem', 'no-result', 'symbol'),
